@@ -99,6 +99,26 @@ MUTANTS = [
      "                ess = effective_sample_size(samples.log_weights(0.5 * (beta + samples.beta)))\n"),
     ("c18-resume-dup", ["C18"], S + "samplers/smc/base.py",
      "        if store_sample_history and not resumed:", "        if store_sample_history:"),
+    # ---- C03
+    ("c03-zuko-logprob-jac-sign", ["C03"], S + "flows/torch/flows.py",
+     "            log_prob = self._flow().log_prob(x_prime) + log_abs_det_jacobian", "            log_prob = self._flow().log_prob(x_prime) - log_abs_det_jacobian"),
+    ("c03-zuko-sample-jac-sign", ["C03"], S + "flows/torch/flows.py",
+     "        return xp.asarray(x), xp.asarray(log_prob - log_abs_det_jacobian)", "        return xp.asarray(x), xp.asarray(log_prob + log_abs_det_jacobian)"),
+    ("c03-zuko-sample-no-inverse-rescale", ["C03"], S + "flows/torch/flows.py",
+     "        x, log_abs_det_jacobian = self.inverse_rescale(x_prime)\n        return xp.asarray(x), xp.asarray(log_prob - log_abs_det_jacobian)",
+     "        x, log_abs_det_jacobian = self.inverse_rescale(x_prime)\n        return xp.asarray(x_prime), xp.asarray(log_prob - log_abs_det_jacobian)"),
+    ("c03-flowjax-logprob-drops-jac", ["C03"], S + "flows/jax/flows.py",
+     "        return xp.asarray(log_prob + log_abs_det_jacobian)", "        return xp.asarray(log_prob)"),
+    ("c03-flowjax-sample-jac-sign", ["C03"], S + "flows/jax/flows.py",
+     "        return xp.asarray(x), xp.asarray(log_prob - log_abs_det_jacobian)", "        return xp.asarray(x), xp.asarray(log_prob + log_abs_det_jacobian)"),
+    ("c03-drop-unit-scale-jac", ["C03", "C04"], S + "transforms.py",
+     "        y, log_j_unit = self.to_unit_interval(x)\n        y = self.xp.clip(y, self.eps, 1.0 - self.eps)\n        y = erfinv(2 * y - 1) * math.sqrt(2)\n        log_abs_det_jacobian = 0.5 * (math.log(2 * math.pi) + y**2).sum(-1)\n        log_abs_det_jacobian = log_abs_det_jacobian + log_j_unit",
+     "        y, log_j_unit = self.to_unit_interval(x)\n        y = self.xp.clip(y, self.eps, 1.0 - self.eps)\n        y = erfinv(2 * y - 1) * math.sqrt(2)\n        log_abs_det_jacobian = 0.5 * (math.log(2 * math.pi) + y**2).sum(-1)"),
+    ("c03-zuko-weights-not-loaded", ["C03", "C13"], S + "flows/torch/flows.py",
+     "        obj._flow.load_state_dict(weights)\n", "        obj._flow.load_state_dict(weights, strict=False) if len(weights) < 4 else None\n"),
+    ("c03-affine-jac-uses-var", ["C03", "C04"], S + "transforms.py",
+     "        self.log_abs_det_jacobian = -self.xp.log(self.xp.abs(self._std)).sum()\n        return self.forward(x)[0]",
+     "        self.log_abs_det_jacobian = -self.xp.log(self.xp.abs(self._std) ** 2).sum()\n        return self.forward(x)[0]"),
     # ---- C14
     ("c14-flow-only-if-missing", ["C14"], S + "aspire.py",
      "                if self.flow is not None and not saved_flow:\n                    # The flow in the file must be the one this run samples\n                    # from: replace an existing one\n                    if \"flow\" in h5_file:\n                        del h5_file[\"flow\"]\n                    self.save_flow(h5_file)",
